@@ -6,7 +6,9 @@
  *   id r c v type p  X[r*c]  (avg_n avg_d)[c]  (sp_n sp_d)[c]  N[c]  cn[r*c]  ny[2*c]  ncn[2*c]
  *   X: integer cells of the matrix (99999999 = MISSING), already the affine image v computed by TLC
  *   avg = column mean, sp = scale^p, cn = N*x - S1 (centred numerator), ny = two new rows, ncn their centred numerators
- * The library is fed X * 2^-e for every exponent e of the variant (exact in double), the expectations scale with it.
+ * The library is fed X * 2^-e / q for every unit (e, q) of the variant, the expectations scale with it: q = 1 dyadic units
+ * (exact in double) and, class K5 of INPUT-CLASSES.md, q = 10, 3, 7 at e = 0 (cells NOT representable: a constant column's
+ * sum/n is an ulp off the constant, and its transform must still be exactly 0 for the spread-based options).
  * Output: one Fail{...} line per failed comparison (at most a few per case) and a final Done{cases,runs,fails} line.
  * Comparison: stored average and scaling through the rational power (s^p vs sp), transformed cells through
  * t * scale = centred; relative 1e-9 plus the cancellation slack 1e-13 * max|column| (x - mean is formed in double);
@@ -24,12 +26,13 @@ typedef struct {
 } kase;
 
 static long nfail = 0, nruns = 0;
+static long cur_den = 1;
 static int failures_this_case = 0;
 static void fail(const kase *k, int e, const char *kind, int i, int j, double got, double want, const char *what){
   nfail++;
   if(failures_this_case++ >= 4) return;
-  VRT_EMIT("{\"e\":\"Fail\",\"id\":%ld,\"type\":%d,\"v\":%d,\"exp\":%d,\"kind\":\"%s\",\"i\":%d,\"j\":%d,\"got\":\"%.17g\",\"want\":\"%.17g\",\"what\":\"%s\"}",
-           k->id, k->type, k->v, e, kind, i, j, got, want, what);
+  VRT_EMIT("{\"e\":\"Fail\",\"id\":%ld,\"type\":%d,\"v\":%d,\"exp\":%d,\"den\":%ld,\"kind\":\"%s\",\"i\":%d,\"j\":%d,\"got\":\"%.17g\",\"want\":\"%.17g\",\"what\":\"%s\"}",
+           k->id, k->type, k->v, e, cur_den, kind, i, j, got, want, what);
 }
 static int close_to(double got, double want, double slack){
   if(!vfinite(got)) return 0;
@@ -66,7 +69,9 @@ static int check_fit_col(const kase *k, int e, double u, int j, int nrow, const 
   for(int q = 1; q < k->p; q++) spow *= s;
   int sc_ok;
   if(k->type == 0) sc_ok = s == 1.0;
-  else if(c.zero) sc_ok = vfinite(s) && fabs(s) <= slack;
+  /* zero statistic: on a dyadic grid the sums are exact and the stored value must be within the slack of 0; on a non-dyadic
+   * grid (K5) the sdev of a constant column is rounding noise <= slack and Pareto scaling stores its square root */
+  else if(c.zero) sc_ok = vfinite(s) && ((cur_den != 1 && k->p == 4) ? s * s : fabs(s)) <= slack;
   else sc_ok = vfinite(s) && fabs(spow - c.sp) <= k->p * 1e-9 * fabs(c.sp) + (k->p == 1 ? slack : 0.0) && (k->p == 1 || s > 0);
   if(!sc_ok){ bad++; if(report){ snprintf(what, sizeof what, "%sstored scaling^%d differs from the exact statistic", pfx, k->p); fail(k, e, "scale", -1, j, spow, c.sp, what); } }
   for(int a = 0; a < nrow; a++){
@@ -91,14 +96,14 @@ static matrix *keep_m[KEEP], *keep_t[KEEP]; static dvector *keep_a[KEEP], *keep_
 static void keep_clear(void){ for(int q = 0; q < nkeep; q++){ DelMatrix(&keep_m[q]); DelMatrix(&keep_t[q]); DelDVector(&keep_a[q]); DelDVector(&keep_s[q]); } nkeep = 0; }
 static int bits_eq(double a, double b){ return memcmp(&a, &b, 8) == 0 || (a == b); }
 
-static void run_case(const kase *k, int e){
-  double u = ldexp(1.0, -e);
+static void run_case(const kase *k, int e, long q){
+  double u = ldexp(1.0, -e) / (double)q; cur_den = q;
   int r = k->r, c = k->c; nruns++;
   matrix *m, *t; dvector *avg, *sc;
   NewMatrix(&m, r, c); NewMatrix(&t, r, c); initDVector(&avg); initDVector(&sc);
   int rowidx[MAXR]; for(int i = 0; i < r; i++) rowidx[i] = i;
   int colbad[MAXC] = {0};
-  for(int i = 0; i < r; i++) for(int j = 0; j < c; j++) m->data[i][j] = k->X[i][j] == MISS ? (double)MISS : (double)k->X[i][j] * u;
+  for(int i = 0; i < r; i++) for(int j = 0; j < c; j++) m->data[i][j] = k->X[i][j] == MISS ? (double)MISS : (q == 1 ? (double)k->X[i][j] * u : (double)k->X[i][j] / (double)q);
   /* 1. fit */
   MatrixPreprocess(m, k->type, avg, sc, t);
   if(k->type < 0){
@@ -143,7 +148,7 @@ static void run_case(const kase *k, int e){
    *    compared with the exact statistics in step 1, so a wrong fit is not reported a second time here */
   if(k->type >= 0 && avg->size == (size_t)c && sc->size == (size_t)c){
     matrix *y, *t3; NewMatrix(&y, 2, c); initMatrix(&t3);
-    for(int a = 0; a < 2; a++) for(int j = 0; j < c; j++) y->data[a][j] = (double)k->ny[a][j] * u;
+    for(int a = 0; a < 2; a++) for(int j = 0; j < c; j++) y->data[a][j] = q == 1 ? (double)k->ny[a][j] * u : (double)k->ny[a][j] / (double)q;
     MatrixPreprocess(y, k->type, avg, sc, t3);
     if(t3->row != 2 || t3->col != (size_t)c) fail(k, e, "apply", -1, -1, (double)t3->row, 2.0, "apply path returns a matrix of the wrong shape for new rows");
     else for(int a = 0; a < 2; a++) for(int j = 0; j < c; j++){
@@ -208,11 +213,12 @@ int main(int argc, char **argv){
   vrt_open(argv[2]);
   kase k; long ncases = 0;
   /* exponents per variant: the fed matrix is X * 2^-e.  v = 1, 3 (mean between the thresholds) only make sense at e = 10 */
-  static const int E0[] = {0, 4, -20}, E1[] = {10}, E2[] = {0, 3};
+  static const int E0[] = {0, 4, -20, 0, 0}, E1[] = {10}, E2[] = {0, 3, 0, 0};
+  static const long Q0[] = {1, 1, 1, 10, 3}, Q1[] = {1}, Q2[] = {1, 1, 10, 7};
   while(read_case(f, &k)){
     ncases++; failures_this_case = 0;
-    const int *E = k.v == 0 ? E0 : (k.v == 2 ? E2 : E1); int ne = k.v == 0 ? 3 : (k.v == 2 ? 2 : 1);
-    for(int q = 0; q < ne; q++) run_case(&k, E[q]);
+    const int *E = k.v == 0 ? E0 : (k.v == 2 ? E2 : E1); const long *Q = k.v == 0 ? Q0 : (k.v == 2 ? Q2 : Q1); int ne = k.v == 0 ? 5 : (k.v == 2 ? 4 : 1);
+    for(int q = 0; q < ne; q++) run_case(&k, E[q], Q[q]);
   }
   keep_clear();
   VRT_EMIT("{\"e\":\"Done\",\"cases\":%ld,\"runs\":%ld,\"fails\":%ld}", ncases, nruns, nfail);
